@@ -101,6 +101,35 @@ def work(shard, tier):
             import os
             from vm import c16, gs1gen
             ais = gs1gen.read_ais(os.path.join(C.REPO, 'stdnum', 'gs1_ai.dat'))
+            # deterministic pass: every AI once with a leading-zero / minimal value, followed by AI 99 (which sorts last)
+            filler = [a for a in ais if a[0] == '99'][:1]
+            det = []
+            for ai, props in ais:
+                for shape in ('min', 'max'):
+                    try:
+                        raw = gs1gen.raw_value(props['format'], props.get('type', 'str'), rng, shape, forbid='()|\x1d', max_decimals=0)
+                    except gs1gen.UnsupportedFormat:
+                        continue
+                    if props.get('type', 'str') in ('str', 'int') and raw[:1].isdigit() and len(raw) > 1 and props['format'].startswith('N') and '+' not in props['format'] and '[' not in props['format']:
+                        raw = '0' + raw[1:]
+                    if ai in ('01', '02'):
+                        from stdnum import ean as _ean
+                        raw = raw[:13] + _ean.calc_check_digit(raw[:13])
+                    if ai == '8007':
+                        raw = 'NL91ABNA0417164300'
+                    det.append([(ai, props, raw.strip() or 'A')] + ([(filler[0][0], filler[0][1], 'A')] if filler and ai != '99' else []))
+            for items in det:
+                items.sort(key=lambda t: (bool(t[1].get('fnc1')), t[0]))
+                for sep in ('', '|'):
+                    x = c16.build(items, sep, False, rng)
+                    if x is None:
+                        continue
+                    o1, o2 = check_one(name, mod, x, {'separator': sep} if sep else {}, 'generated-element-string', viols)
+                    evals += 1
+                    if o2 is not None:
+                        evals += 1
+                        counters['accepted'] += 1
+                        counters['refed'] += 1
             for i in range(2500 if tier == 'quick' else 40000):
                 k = rng.choice((1, 2, 2, 3))
                 chosen = [ais[i % len(ais)]] + rng.sample(ais, k - 1)
